@@ -454,9 +454,8 @@ package scipipe
 //@ func (*Task).Execute(t)
 //@   props C01 C02 C03 C05 C06 C09
 //@   requires wf: wfTask(t)
-//@   requires no-audit-alias: noAuditAlias(t)
 //@   modifies *
-//@   effects no-inplace-create[C01]: forall p string :: effCreated[p] && !old(effCreated)[p] ==> !isFinal(t, p)
+//@   effects no-inplace-create[C01]: noAuditAlias(t) ==> forall p string :: effCreated[p] && !old(effCreated)[p] ==> !isFinal(t, p)
 //@   effects rename-only-from-temp-after-success[C01,C09]: forall a string, b string :: newRename(a, b) && isFinal(t, b) ==> hasPrefix(a, tmpDirOf(t)) && cmdSucceeded(t) && old(!anyOutExists(t))
 //@   effects exec-in-tempdir[C01,C13]: forall s string :: effExec[s] && !old(effExec)[s] ==> hasPrefix(s, "cd " + tmpDirOf(t) + " && ")
 //@   effects refuse-on-tempdir[C03]: statNotExist(old(fsEpoch), tmpDirOf(t))
@@ -1071,8 +1070,13 @@ package scipipe
 //@ define wfOutPort(pt *OutPort) bool = pt.RemotePorts != nil && (forall r string :: r in pt.RemotePorts ==> pt.RemotePorts[r] != nil && pt.RemotePorts[r].Chan != nil) && (forall r1 string, r2 string :: r1 in pt.RemotePorts && r2 in pt.RemotePorts && r1 != r2 ==> pt.RemotePorts[r1] != pt.RemotePorts[r2] && pt.RemotePorts[r1].Chan != pt.RemotePorts[r2].Chan)
 //@ define isRemoteChan(pt *OutPort, c chan *FileIP) bool = exists r string :: r in pt.RemotePorts && pt.RemotePorts[r].Chan == c
 
+// Every IP that travels through a port was built by NewFileIP: it has its BaseIP and an (initially unused) sub-stream port.
+//@ define validIP(ip *FileIP) bool = ip != nil && ip.BaseIP != nil && ip.SubStream != nil && ip.SubStream.Chan != nil
+//@ chaninv *FileIP valid-ip[C04]: validIP($v)
+
 //@ func (*InPort).Send(pt, ip)
 //@   props C04 C08
+//@   requires valid: validIP(ip)
 //@   modifies chan(pt.Chan)
 //@   ensures appended: chanSentN(pt.Chan) == old(chanSentN(pt.Chan)) + 1 && chanSentAt(pt.Chan, old(chanSentN(pt.Chan))) == ip
 //@   ensures earlier-kept: forall j int :: 0 <= j && j < old(chanSentN(pt.Chan)) ==> chanSentAt(pt.Chan, j) == old(chanSentAt(pt.Chan, j))
@@ -1081,6 +1085,7 @@ package scipipe
 //@ func (*OutPort).Send(pt, ip)
 //@   props C04 C08
 //@   requires wf: wfOutPort(pt)
+//@   requires valid: validIP(ip)
 //@   modifies chan, outN, outAt
 //@   ghost set outAt = update(outAt, pt, update(outAt[pt], outN[pt], ip))
 //@   ghost set outN = update(outN, pt, outN[pt] + 1)
@@ -1190,19 +1195,20 @@ package scipipe
 // ---------------------------------------------------------------------------
 
 //@ define wfInPorts(m map[string]*InPort) bool = m != nil && (forall k string :: k in m ==> m[k] != nil && m[k].Chan != nil) && (forall k1 string, k2 string :: k1 in m && k2 in m && k1 != k2 ==> m[k1].Chan != m[k2].Chan)
-//@ define isInChan(m map[string]*InPort, c chan *FileIP) bool = exists k string :: k in m && m[k].Chan == c
+//@ define isInChan(m map[string]*InPort, c ref) bool = exists k string :: k in m && m[k].Chan == c
 
 //@ func (*BaseProcess).receiveOnInPorts(p) (ips, inPortsOpen)
 //@   props C04 C08
 //@   requires wf: wfInPorts(p.inPorts)
-//@   modifies chan, new(map[string]*FileIP)
+//@   modifies chanrecv, new(map[string]*FileIP)
 //@   ensures fresh: fresh(ips) && ips != nil
 //@   ensures one-receive-per-port: forall k string :: k in p.inPorts ==> chanRecvA(p.inPorts[k].Chan) == old(chanRecvA(p.inPorts[k].Chan)) + 1 && chanRecvN(p.inPorts[k].Chan) == old(chanRecvN(p.inPorts[k].Chan)) + ite(old(chanRecvN(p.inPorts[k].Chan)) < chanTotal(p.inPorts[k].Chan), 1, 0)
 //@   ensures open-iff-every-port-delivered: inPortsOpen <==> (forall k string :: k in p.inPorts ==> old(chanRecvN(p.inPorts[k].Chan)) < chanTotal(p.inPorts[k].Chan))
 //@   ensures items-in-arrival-order: forall k string :: k in p.inPorts && old(chanRecvN(p.inPorts[k].Chan)) < chanTotal(p.inPorts[k].Chan) ==> k in ips && ips[k] == chanInAt(p.inPorts[k].Chan, old(chanRecvN(p.inPorts[k].Chan)))
 //@   ensures only-ports: forall k string :: k in ips ==> k in p.inPorts
-//@   ensures other-channels-untouched: forall c chan *FileIP :: !fresh(c) && !isInChan(p.inPorts, c) ==> chanRecvN(c) == old(chanRecvN(c)) && chanRecvA(c) == old(chanRecvA(c))
-//@   ensures nothing-sent: forall c chan *FileIP :: !fresh(c) ==> chanSentN(c) == old(chanSentN(c))
+//@   ensures valid-items: forall k string :: k in ips ==> validIP(ips[k])
+//@   ensures other-channels-untouched: forall c ref :: !fresh(c) && !isInChan(p.inPorts, c) ==> chanRecvN(c) == old(chanRecvN(c)) && chanRecvA(c) == old(chanRecvA(c))
+//@   ensures nothing-sent: forall c ref :: !fresh(c) ==> chanSentN(c) == old(chanSentN(c)) && chanClosed(c) == old(chanClosed(c))
 //@   loop 0 invariant fresh: fresh(ips) && ips != nil
 //@   loop 0 invariant vis: forall k string :: $visited[k] ==> k in p.inPorts
 //@   loop 0 invariant done: forall k string :: $visited[k] ==> chanRecvA(p.inPorts[k].Chan) == old(chanRecvA(p.inPorts[k].Chan)) + 1 && chanRecvN(p.inPorts[k].Chan) == old(chanRecvN(p.inPorts[k].Chan)) + ite(old(chanRecvN(p.inPorts[k].Chan)) < chanTotal(p.inPorts[k].Chan), 1, 0)
@@ -1210,22 +1216,25 @@ package scipipe
 //@   loop 0 invariant open: inPortsOpen <==> (forall k string :: $visited[k] ==> old(chanRecvN(p.inPorts[k].Chan)) < chanTotal(p.inPorts[k].Chan))
 //@   loop 0 invariant items: forall k string :: $visited[k] && old(chanRecvN(p.inPorts[k].Chan)) < chanTotal(p.inPorts[k].Chan) ==> k in ips && ips[k] == chanInAt(p.inPorts[k].Chan, old(chanRecvN(p.inPorts[k].Chan)))
 //@   loop 0 invariant only-ports: forall k string :: k in ips ==> $visited[k]
-//@   loop 0 invariant others: forall c chan *FileIP :: !fresh(c) && !isInChan(p.inPorts, c) ==> chanRecvN(c) == old(chanRecvN(c)) && chanRecvA(c) == old(chanRecvA(c))
-//@   loop 0 invariant nothing-sent: forall c chan *FileIP :: !fresh(c) ==> chanSentN(c) == old(chanSentN(c))
+//@   loop 0 invariant valid-items: forall k string :: k in ips ==> validIP(ips[k])
+//@   loop 0 invariant others: forall c ref :: !fresh(c) && !isInChan(p.inPorts, c) ==> chanRecvN(c) == old(chanRecvN(c)) && chanRecvA(c) == old(chanRecvA(c))
+//@   loop 0 invariant nothing-sent: forall c ref :: !fresh(c) ==> chanSentN(c) == old(chanSentN(c)) && chanClosed(c) == old(chanClosed(c))
 
 //@ define wfInParamPorts(m map[string]*InParamPort) bool = m != nil && (forall k string :: k in m ==> m[k] != nil && m[k].Chan != nil) && (forall k1 string, k2 string :: k1 in m && k2 in m && k1 != k2 ==> m[k1].Chan != m[k2].Chan)
-//@ define isInParamChan(m map[string]*InParamPort, c chan string) bool = exists k string :: k in m && m[k].Chan == c
+//@ define isInParamChan(m map[string]*InParamPort, c ref) bool = exists k string :: k in m && m[k].Chan == c
 
 //@ func (*BaseProcess).receiveOnInParamPorts(p) (params, paramPortsOpen)
 //@   props C04 C08
 //@   requires wf: wfInParamPorts(p.inParamPorts)
-//@   modifies chan, new(map[string]string)
+//@   modifies chanrecv, new(map[string]string)
 //@   ensures fresh: fresh(params) && params != nil
 //@   ensures one-receive-per-port: forall k string :: k in p.inParamPorts ==> chanRecvA(p.inParamPorts[k].Chan) == old(chanRecvA(p.inParamPorts[k].Chan)) + 1 && chanRecvN(p.inParamPorts[k].Chan) == old(chanRecvN(p.inParamPorts[k].Chan)) + ite(old(chanRecvN(p.inParamPorts[k].Chan)) < chanTotal(p.inParamPorts[k].Chan), 1, 0)
 //@   ensures open-iff-every-port-delivered: paramPortsOpen <==> (forall k string :: k in p.inParamPorts ==> old(chanRecvN(p.inParamPorts[k].Chan)) < chanTotal(p.inParamPorts[k].Chan))
 //@   ensures items-in-arrival-order: forall k string :: k in p.inParamPorts && old(chanRecvN(p.inParamPorts[k].Chan)) < chanTotal(p.inParamPorts[k].Chan) ==> k in params && params[k] == chanInAt(p.inParamPorts[k].Chan, old(chanRecvN(p.inParamPorts[k].Chan)))
 //@   ensures only-ports: forall k string :: k in params ==> k in p.inParamPorts
-//@   ensures other-channels-untouched: forall c chan string :: !fresh(c) && !isInParamChan(p.inParamPorts, c) ==> chanRecvN(c) == old(chanRecvN(c)) && chanRecvA(c) == old(chanRecvA(c))
+//@   ensures other-channels-untouched: forall c ref :: !fresh(c) && !isInParamChan(p.inParamPorts, c) ==> chanRecvN(c) == old(chanRecvN(c)) && chanRecvA(c) == old(chanRecvA(c))
+//@   ensures nothing-sent: forall c ref :: !fresh(c) ==> chanSentN(c) == old(chanSentN(c)) && chanClosed(c) == old(chanClosed(c))
+//@   loop 0 invariant nothing-sent: forall c ref :: !fresh(c) ==> chanSentN(c) == old(chanSentN(c)) && chanClosed(c) == old(chanClosed(c))
 //@   loop 0 invariant fresh: fresh(params) && params != nil
 //@   loop 0 invariant vis: forall k string :: $visited[k] ==> k in p.inParamPorts
 //@   loop 0 invariant done: forall k string :: $visited[k] ==> chanRecvA(p.inParamPorts[k].Chan) == old(chanRecvA(p.inParamPorts[k].Chan)) + 1 && chanRecvN(p.inParamPorts[k].Chan) == old(chanRecvN(p.inParamPorts[k].Chan)) + ite(old(chanRecvN(p.inParamPorts[k].Chan)) < chanTotal(p.inParamPorts[k].Chan), 1, 0)
@@ -1233,7 +1242,7 @@ package scipipe
 //@   loop 0 invariant open: paramPortsOpen <==> (forall k string :: $visited[k] ==> old(chanRecvN(p.inParamPorts[k].Chan)) < chanTotal(p.inParamPorts[k].Chan))
 //@   loop 0 invariant items: forall k string :: $visited[k] && old(chanRecvN(p.inParamPorts[k].Chan)) < chanTotal(p.inParamPorts[k].Chan) ==> k in params && params[k] == chanInAt(p.inParamPorts[k].Chan, old(chanRecvN(p.inParamPorts[k].Chan)))
 //@   loop 0 invariant only-ports: forall k string :: k in params ==> $visited[k]
-//@   loop 0 invariant others: forall c chan string :: !fresh(c) && !isInParamChan(p.inParamPorts, c) ==> chanRecvN(c) == old(chanRecvN(c)) && chanRecvA(c) == old(chanRecvA(c))
+//@   loop 0 invariant others: forall c ref :: !fresh(c) && !isInParamChan(p.inParamPorts, c) ==> chanRecvN(c) == old(chanRecvN(c)) && chanRecvA(c) == old(chanRecvA(c))
 
 // ---------------------------------------------------------------------------
 // ip.go: creating IPs (C09 invalid output path, C02/C11 audit record of existing files)
@@ -1264,7 +1273,7 @@ package scipipe
 //@   props C02 C09 C11
 //@   modifies locked, new(BaseIP.path), new(BaseIP.id), new(BaseIP.auditInfo), new(FileIP.BaseIP), new(FileIP.lock), new(FileIP.SubStream), new(FileIP.doStream), new(FileIP.buffer), new(InPort.Chan), new(InPort.name), new(InPort.process), new(InPort.RemotePorts), new(InPort.ready), new(map[string]*OutPort), new(chan)
 //@   ensures invalid-path-is-an-error[C09]: (err == nil) <==> validPath(path)
-//@   ensures fresh: err == nil ==> res != nil && fresh(res) && res.BaseIP != nil && fresh(res.BaseIP) && allocated(res.BaseIP) && res.path == path && !res.doStream && res.SubStream != nil && fresh(res.SubStream) && res.lock != nil
+//@   ensures fresh: err == nil ==> res != nil && fresh(res) && res.BaseIP != nil && fresh(res.BaseIP) && allocated(res.BaseIP) && res.path == path && !res.doStream && res.SubStream != nil && fresh(res.SubStream) && res.SubStream.Chan != nil && res.lock != nil
 //@   ensures existing-file-carries-its-record[C02,C11]: err == nil && statOK(fsEpoch, path) ==> res.auditInfo == loadedAudit(path + ".audit.json", fsEpoch)
 //@   ensures no-effects: effCreated == old(effCreated) && effMkdir == old(effMkdir) && effRenamed == old(effRenamed) && effRemoved == old(effRemoved) && effExec == old(effExec)
 
@@ -1278,20 +1287,23 @@ package scipipe
 
 //@ define joinPort(portInfos map[string]*PortInfo, k string) bool = k in portInfos && portInfos[k].join && portInfos[k].joinSep != ""
 //@ define subChan(inIPs map[string]*FileIP, k string) chan *FileIP = inIPs[k].SubStream.Chan
+//@ define isSubChanOf(portInfos map[string]*PortInfo, inIPs map[string]*FileIP, c ref) bool = exists k string :: joinPort(portInfos, k) && old(subChan(inIPs, k)) == c
 //@ define wfJoinInputs(portInfos map[string]*PortInfo, inIPs map[string]*FileIP) bool = portInfos != nil && (forall k string :: k in portInfos ==> portInfos[k] != nil) && (forall k string :: joinPort(portInfos, k) ==> k in inIPs && inIPs[k] != nil && inIPs[k].SubStream != nil && subChan(inIPs, k) != nil) && (forall k1 string, k2 string :: joinPort(portInfos, k1) && joinPort(portInfos, k2) && k1 != k2 ==> subChan(inIPs, k1) != subChan(inIPs, k2))
 
 //@ func NewTask(workflow, process, name, cmdPat, inIPs, outPathFuncs, portInfos, params, tags, prepend, customExecute, cores) (t)
 //@   props C04 C06 C08 C09 C17 C18
 //@   requires wf: wfJoinInputs(portInfos, inIPs)
-//@   modifies fresh, chan, locked
+//@   modifies fresh, chanrecv, new(chan), locked
 //@   ensures fresh: t != nil && fresh(t)
 //@   ensures identity[C04,C06]: t.Name == name && t.InIPs == inIPs && t.Params == params && t.Tags == tags && t.cores == cores && t.workflow == workflow && t.Process == process && t.CustomExecute == customExecute && t.portInfos == portInfos
 //@   ensures done-unbuffered[C08]: t.Done != nil && fresh(t.Done) && chanCap(t.Done) == 0 && chanSentN(t.Done) == 0 && !chanClosed(t.Done)
 //@   ensures out-ips-cover-path-funcs[C04]: t.OutIPs != nil && fresh(t.OutIPs) && (forall o string :: o in t.OutIPs <==> o in outPathFuncs)
-//@   ensures out-ips-valid[C09]: forall o string :: o in t.OutIPs ==> t.OutIPs[o] != nil && fresh(t.OutIPs[o]) && validPath(t.OutIPs[o].path)
+//@   ensures out-ips-valid[C09]: forall o string :: o in t.OutIPs ==> t.OutIPs[o] != nil && fresh(t.OutIPs[o]) && validPath(t.OutIPs[o].path) && validIP(t.OutIPs[o])
 //@   ensures stream-flag-propagated[C17]: forall o string :: o in t.OutIPs ==> (t.OutIPs[o].doStream <==> (o in portInfos && portInfos[o].doStream))
 //@   ensures substream-drained[C18]: forall k string :: joinPort(portInfos, k) ==> k in t.subStreamIPs && chanRecvN(subChan(inIPs, k)) == chanTotal(subChan(inIPs, k)) && len(t.subStreamIPs[k]) == chanTotal(subChan(inIPs, k)) - old(chanRecvN(subChan(inIPs, k))) && (forall j int :: 0 <= j && j < len(t.subStreamIPs[k]) ==> t.subStreamIPs[k][j] == chanInAt(subChan(inIPs, k), old(chanRecvN(subChan(inIPs, k))) + j))
-//@   ensures nothing-sent: forall c chan *FileIP :: !fresh(c) ==> chanSentN(c) == old(chanSentN(c))
+//@   ensures nothing-sent: forall c ref :: !fresh(c) ==> chanSentN(c) == old(chanSentN(c))
+//@   ensures nothing-closed: forall c ref :: !fresh(c) ==> chanClosed(c) == old(chanClosed(c))
+//@   ensures only-substreams-read[C04,C18]: forall c ref :: !fresh(c) && !isSubChanOf(portInfos, inIPs, c) ==> chanRecvN(c) == old(chanRecvN(c)) && chanRecvA(c) == old(chanRecvA(c)) && chanClosed(c) == old(chanClosed(c))
 //@   ensures no-effects: effCreated == old(effCreated) && effMkdir == old(effMkdir) && effRenamed == old(effRenamed) && effRemoved == old(effRemoved) && effExec == old(effExec)
 //@   loop 0 invariant entry-allocated: forall k string :: joinPort(portInfos, k) ==> !fresh(old(inIPs[k])) && !fresh(old(inIPs[k].SubStream)) && !fresh(old(subChan(inIPs, k)))
 //@   loop 0 invariant inputs-unchanged: forall k string :: joinPort(portInfos, k) ==> inIPs[k] == old(inIPs[k]) && inIPs[k].SubStream == old(inIPs[k].SubStream) && subChan(inIPs, k) == old(subChan(inIPs, k))
@@ -1302,7 +1314,8 @@ package scipipe
 //@   loop 0 invariant vis: forall k string :: $visited[k] ==> k in portInfos
 //@   loop 0 invariant drained: forall k string :: $visited[k] && joinPort(portInfos, k) ==> k in t.subStreamIPs && chanRecvN(subChan(inIPs, k)) == chanTotal(subChan(inIPs, k)) && len(t.subStreamIPs[k]) == chanTotal(subChan(inIPs, k)) - old(chanRecvN(subChan(inIPs, k))) && (forall j int :: 0 <= j && j < len(t.subStreamIPs[k]) ==> t.subStreamIPs[k][j] == chanInAt(subChan(inIPs, k), old(chanRecvN(subChan(inIPs, k))) + j))
 //@   loop 0 invariant not-yet: forall k string :: joinPort(portInfos, k) && !$visited[k] ==> chanRecvN(subChan(inIPs, k)) == old(chanRecvN(subChan(inIPs, k)))
-//@   loop 0 invariant nothing-sent: forall c chan *FileIP :: !fresh(c) ==> chanSentN(c) == old(chanSentN(c))
+//@   loop 0 invariant only-substreams-read: forall c ref :: !fresh(c) && !isSubChanOf(portInfos, inIPs, c) ==> chanRecvN(c) == old(chanRecvN(c)) && chanRecvA(c) == old(chanRecvA(c)) && chanClosed(c) == old(chanClosed(c))
+//@   loop 0 invariant nothing-sent: forall c ref :: !fresh(c) ==> chanSentN(c) == old(chanSentN(c)) && chanClosed(c) == old(chanClosed(c))
 //@   loop 1 invariant entry-allocated: forall k string :: joinPort(portInfos, k) ==> !fresh(old(inIPs[k])) && !fresh(old(inIPs[k].SubStream)) && !fresh(old(subChan(inIPs, k)))
 //@   loop 1 invariant inputs-unchanged: forall k string :: joinPort(portInfos, k) ==> inIPs[k] == old(inIPs[k]) && inIPs[k].SubStream == old(inIPs[k].SubStream) && subChan(inIPs, k) == old(subChan(inIPs, k))
 //@   loop 1 invariant fresh: t != nil && fresh(t) && fresh(t.subStreamIPs) && t.subStreamIPs != nil && fresh(t.OutIPs) && t.OutIPs != nil && t.OutIPs != inIPs
@@ -1313,14 +1326,15 @@ package scipipe
 //@   loop 1 invariant collected: chanRecvN(subChan(inIPs, ptName)) >= old(chanRecvN(subChan(inIPs, ptName))) && chanRecvN(subChan(inIPs, ptName)) <= chanTotal(subChan(inIPs, ptName)) && len(ips) == chanRecvN(subChan(inIPs, ptName)) - old(chanRecvN(subChan(inIPs, ptName))) && (forall j int :: 0 <= j && j < len(ips) ==> ips[j] == chanInAt(subChan(inIPs, ptName), old(chanRecvN(subChan(inIPs, ptName))) + j))
 //@   loop 1 invariant others-drained: forall k string :: $visited0[k] && k != ptName && joinPort(portInfos, k) ==> k in t.subStreamIPs && chanRecvN(subChan(inIPs, k)) == chanTotal(subChan(inIPs, k)) && len(t.subStreamIPs[k]) == chanTotal(subChan(inIPs, k)) - old(chanRecvN(subChan(inIPs, k))) && (forall j int :: 0 <= j && j < len(t.subStreamIPs[k]) ==> t.subStreamIPs[k][j] == chanInAt(subChan(inIPs, k), old(chanRecvN(subChan(inIPs, k))) + j))
 //@   loop 1 invariant not-yet: forall k string :: joinPort(portInfos, k) && !$visited0[k] ==> chanRecvN(subChan(inIPs, k)) == old(chanRecvN(subChan(inIPs, k)))
-//@   loop 1 invariant nothing-sent: forall c chan *FileIP :: !fresh(c) ==> chanSentN(c) == old(chanSentN(c))
+//@   loop 1 invariant only-substreams-read: forall c ref :: !fresh(c) && !isSubChanOf(portInfos, inIPs, c) ==> chanRecvN(c) == old(chanRecvN(c)) && chanRecvA(c) == old(chanRecvA(c)) && chanClosed(c) == old(chanClosed(c))
+//@   loop 1 invariant nothing-sent: forall c ref :: !fresh(c) ==> chanSentN(c) == old(chanSentN(c)) && chanClosed(c) == old(chanClosed(c))
 //@   loop 2 invariant entry-allocated: forall k string :: joinPort(portInfos, k) ==> !fresh(old(inIPs[k])) && !fresh(old(inIPs[k].SubStream)) && !fresh(old(subChan(inIPs, k)))
 //@   loop 2 invariant fresh: t != nil && fresh(t) && allocated(t) && fresh(t.subStreamIPs) && allocated(t.subStreamIPs) && fresh(t.OutIPs) && allocated(t.OutIPs) && t.OutIPs != nil && t.OutIPs != inIPs && allocated(t.Done)
 //@   loop 2 invariant fields: t.Name == name && t.InIPs == inIPs && t.Params == params && t.Tags == tags && t.cores == cores && t.workflow == workflow && t.Process == process && t.CustomExecute == customExecute && t.portInfos == portInfos
 //@   loop 2 invariant done: t.Done != nil && fresh(t.Done) && chanCap(t.Done) == 0 && chanSentN(t.Done) == 0 && !chanClosed(t.Done)
 //@   loop 2 invariant vis: forall o string :: $visited[o] ==> o in outPathFuncs
 //@   loop 2 invariant cover: forall o string :: o in t.OutIPs <==> $visited[o]
-//@   loop 2 invariant valid: forall o string :: o in t.OutIPs ==> t.OutIPs[o] != nil && fresh(t.OutIPs[o]) && allocated(t.OutIPs[o]) && allocated(t.OutIPs[o].BaseIP) && validPath(t.OutIPs[o].path)
+//@   loop 2 invariant valid: forall o string :: o in t.OutIPs ==> t.OutIPs[o] != nil && fresh(t.OutIPs[o]) && allocated(t.OutIPs[o]) && allocated(t.OutIPs[o].BaseIP) && validPath(t.OutIPs[o].path) && validIP(t.OutIPs[o]) && allocated(t.OutIPs[o].SubStream)
 //@   loop 2 invariant stream: forall o string :: o in t.OutIPs ==> (t.OutIPs[o].doStream <==> (o in portInfos && portInfos[o].doStream))
 //@   loop 2 invariant distinct: forall o1 string, o2 string :: o1 in t.OutIPs && o2 in t.OutIPs && o1 != o2 ==> t.OutIPs[o1] != t.OutIPs[o2]
 //@   loop 2 invariant inputs-unchanged: forall k string :: joinPort(portInfos, k) ==> inIPs[k] == old(inIPs[k]) && inIPs[k].SubStream == old(inIPs[k].SubStream) && subChan(inIPs, k) == old(subChan(inIPs, k))
@@ -1328,5 +1342,51 @@ package scipipe
 //@   loop 2 invariant drained-b: forall k string :: joinPort(portInfos, k) ==> chanRecvN(subChan(inIPs, k)) == chanTotal(subChan(inIPs, k))
 //@   loop 2 invariant drained-c: forall k string :: joinPort(portInfos, k) ==> len(t.subStreamIPs[k]) == chanTotal(subChan(inIPs, k)) - old(chanRecvN(subChan(inIPs, k)))
 //@   loop 2 invariant drained-d: forall k string, j int :: joinPort(portInfos, k) && 0 <= j && j < len(t.subStreamIPs[k]) ==> t.subStreamIPs[k][j] == chanInAt(subChan(inIPs, k), old(chanRecvN(subChan(inIPs, k))) + j)
-//@   loop 2 invariant nothing-sent: forall c chan *FileIP :: !fresh(c) ==> chanSentN(c) == old(chanSentN(c))
+//@   loop 2 invariant only-substreams-read: forall c ref :: !fresh(c) && !isSubChanOf(portInfos, inIPs, c) ==> chanRecvN(c) == old(chanRecvN(c)) && chanRecvA(c) == old(chanRecvA(c)) && chanClosed(c) == old(chanClosed(c))
+//@   loop 2 invariant nothing-sent: forall c ref :: !fresh(c) ==> chanSentN(c) == old(chanSentN(c)) && chanClosed(c) == old(chanClosed(c))
 //@   loop 2 invariant no-effects: effCreated == old(effCreated) && effMkdir == old(effMkdir) && effRenamed == old(effRenamed) && effRemoved == old(effRemoved) && effExec == old(effExec)
+
+// ---------------------------------------------------------------------------
+// process.go: task creation (C04: one task per complete input set, C08: in arrival order)
+// ---------------------------------------------------------------------------
+
+//@ ghost func taskChanOwner(ch ref) ref
+
+//@ define wfProcess(p *Process) bool = p != nil && p.workflow != nil && wfInPorts(p.inPorts) && wfInParamPorts(p.inParamPorts) && (forall i string, k string :: i in p.inPorts && k in p.inParamPorts ==> p.inPorts[i].Chan != p.inParamPorts[k].Chan) && p.outPorts != nil && p.PathFuncs != nil && p.PortInfo != nil && (forall k string :: k in p.PortInfo ==> p.PortInfo[k] != nil) && (forall k string :: joinPort(p.PortInfo, k) ==> k in p.inPorts)
+//@ define taskOK(t *Task) bool = wfTask(t) && t.Process != nil && t.portInfos == t.Process.PortInfo && t.cores == t.Process.CoresPerTask && t.workflow == t.Process.workflow && chanCap(t.Done) == 0 && (forall o string :: o in t.OutIPs <==> o in t.Process.PathFuncs) && (forall o string :: o in t.OutIPs ==> validIP(t.OutIPs[o]) && (t.OutIPs[o].doStream <==> (o in t.Process.PortInfo && t.Process.PortInfo[o].doStream)))
+// Every task that travels through a process's task channel was built by NewTask for that process.
+//@ chaninv *Task task-ok[C04]: taskOK($v) && $v.Process == taskChanOwner($ch)
+
+// Sub-streams of the carrier IPs received on different joined in-ports are different channels (assumed: a carrier IP is
+// consumed by one joined in-port only).
+//@ define distinctSubStreams(portInfos map[string]*PortInfo, inIPs map[string]*FileIP) bool = forall k1 string, k2 string :: joinPort(portInfos, k1) && joinPort(portInfos, k2) && k1 != k2 ==> subChan(inIPs, k1) != subChan(inIPs, k2)
+
+//@ func (*Process).createTasks(p) (ch)
+//@   props C04 C08
+//@   requires wf: wfProcess(p)
+//@   modifies fresh
+//@   atmakechan owner: taskChanOwner($ch) == p
+//@   ensures fresh-channel: ch != nil && fresh(ch) && chanCap(ch) == 0 && taskChanOwner(ch) == p && chanRecvN(ch) == 0
+
+//@ define noJoin(p *Process) bool = forall k string :: !joinPort(p.PortInfo, k)
+//@ define portsAdvanced(p *Process, n int) bool = (forall i string :: i in p.inPorts ==> chanRecvN(p.inPorts[i].Chan) == old(chanRecvN(p.inPorts[i].Chan)) + n) && (forall i string :: i in p.inParamPorts ==> chanRecvN(p.inParamPorts[i].Chan) == old(chanRecvN(p.inParamPorts[i].Chan)) + n)
+
+//@ func (*Process).createTasks$1()
+//@   props C04 C08
+//@   requires wf: wfProcess(p) && ch != nil && taskChanOwner(ch) == p && !chanClosed(ch)
+//@   modifies *
+//@   assumecall NewTask carrier-ips-not-shared: distinctSubStreams($arg6, $arg4)
+//@   ensures channel-closed-once[C04]: chanClosed(ch)
+//@   loop 0 invariant wf: wfProcess(p) && ch != nil && taskChanOwner(ch) == p && p == old(p) && ch == old(ch)
+//@   loop 0 invariant count: chanSentN(ch) >= old(chanSentN(ch)) && !chanClosed(ch)
+//@   loop 0 invariant lockstep[C04]: noJoin(p) ==> portsAdvanced(p, chanSentN(ch) - old(chanSentN(ch)))
+//@   loop 0 invariant zip-files[C04,C08]: noJoin(p) ==> forall x int, i string :: old(chanSentN(ch)) <= x && x < chanSentN(ch) && i in p.inPorts ==> i in chanSentAt(ch, x).InIPs && chanSentAt(ch, x).InIPs[i] == chanInAt(p.inPorts[i].Chan, old(chanRecvN(p.inPorts[i].Chan)) + x - old(chanSentN(ch)))
+//@   loop 0 invariant zip-params[C04,C08]: noJoin(p) ==> forall x int, i string :: old(chanSentN(ch)) <= x && x < chanSentN(ch) && i in p.inParamPorts ==> i in chanSentAt(ch, x).Params && chanSentAt(ch, x).Params[i] == chanInAt(p.inParamPorts[i].Chan, old(chanRecvN(p.inParamPorts[i].Chan)) + x - old(chanSentN(ch)))
+//@   loop 0 invariant maps: inIPs != nil && params != nil
+//@   loop 0 invariant sent-allocated: forall x int :: old(chanSentN(ch)) <= x && x < chanSentN(ch) ==> allocated(chanSentAt(ch, x)) && allocated(chanSentAt(ch, x).InIPs) && allocated(chanSentAt(ch, x).Params)
+//@   loop 0 invariant no-ports-first-round[C04]: len(p.inPorts) == 0 && len(p.inParamPorts) == 0 ==> chanSentN(ch) == old(chanSentN(ch))
+//@   ensures one-task-per-complete-input-set[C04]: noJoin(p) ==> portsAdvancedAtExit(p, chanSentN(ch) - old(chanSentN(ch)))
+//@   ensures single-task-without-ports[C04]: len(p.inPorts) == 0 && len(p.inParamPorts) == 0 ==> chanSentN(ch) == old(chanSentN(ch)) + 1
+
+// at exit: every port delivered n items to tasks; the round that found a port closed read each port at most once more
+//@ define portsAdvancedAtExit(p *Process, n int) bool = n >= 0 && (forall i string :: i in p.inPorts ==> chanRecvN(p.inPorts[i].Chan) >= old(chanRecvN(p.inPorts[i].Chan)) + n && chanRecvN(p.inPorts[i].Chan) <= old(chanRecvN(p.inPorts[i].Chan)) + n + 1) && (forall i string :: i in p.inParamPorts ==> chanRecvN(p.inParamPorts[i].Chan) >= old(chanRecvN(p.inParamPorts[i].Chan)) + n && chanRecvN(p.inParamPorts[i].Chan) <= old(chanRecvN(p.inParamPorts[i].Chan)) + n + 1)
